@@ -14,6 +14,9 @@ use std::sync::atomic::Ordering;
 
 struct Gen<'a> {
     root: &'a Value,
+    /// candidates kept per nested position (deterministic spread) and per partial combination list
+    nested_cap: usize,
+    combo_cap: usize,
 }
 
 fn num_window(o: &Map<String, Value>, integer: bool) -> Vec<Value> {
@@ -147,7 +150,7 @@ impl<'a> Gen<'a> {
                         let mut partial: Vec<Vec<Value>> = vec![vec![]];
                         for i in 0..len {
                             let s = if i < prefix.len() { &prefix[i] } else { &items };
-                            let cs = self.cands(s, depth + 1, 3);
+                            let cs = self.cands(s, depth + 1, self.nested_cap);
                             let mut next = vec![];
                             for p in partial.iter() {
                                 for c in cs.iter() {
@@ -157,8 +160,8 @@ impl<'a> Gen<'a> {
                                 }
                             }
                             partial = next;
-                            if partial.len() > 40 {
-                                partial.truncate(40);
+                            if partial.len() > self.combo_cap {
+                                partial.truncate(self.combo_cap);
                             }
                         }
                         for p in partial {
@@ -174,7 +177,7 @@ impl<'a> Gen<'a> {
                     let addl = o.get("additionalProperties").cloned().unwrap_or(json!(true));
                     let mut partial: Vec<Map<String, Value>> = vec![Map::new()];
                     for (k, s) in props.iter() {
-                        let cs = self.cands(s, depth + 1, if untyped { 1 } else { 3 });
+                        let cs = self.cands(s, depth + 1, if untyped { 1 } else { self.nested_cap });
                         let mut next = vec![];
                         for p in partial.iter() {
                             if !req.contains(k) {
@@ -187,8 +190,8 @@ impl<'a> Gen<'a> {
                             }
                         }
                         partial = next;
-                        if partial.len() > 60 {
-                            partial.truncate(60);
+                        if partial.len() > self.combo_cap + 20 {
+                            partial.truncate(self.combo_cap + 20);
                         }
                     }
                     // required names that are not declared come after the declared ones
@@ -371,7 +374,9 @@ pub fn run(ctx: &Ctx) -> Coverage {
     let ss = c07_schemas(ctx);
     ctx.note(format!("{} schemas", ss.len()));
     let b256 = vocab::b256();
-    let top_cap = ctx.tier.pick(200, 1000);
+    let top_cap = ctx.tier.pick(200, 4000);
+    let nested_cap = ctx.tier.pick(3, 8);
+    let combo_cap = ctx.tier.pick(40, 600);
     ss.par_iter().for_each(|schema| {
         if ctx.over_budget() {
             ctx.count("schemas_skipped_budget", 1);
@@ -383,7 +388,7 @@ pub fn run(ctx: &Ctx) -> Coverage {
             Ok(r) => r,
             Err(e) => {
                 ctx.count("schemas_refused", 1);
-                let gen = Gen { root: schema };
+                let gen = Gen { root: schema, nested_cap, combo_cap };
                 let n = gen.cands(schema, 0, top_cap).len();
                 if n > 0 {
                     // a schema of the supported subset with a valid instance must compile: refusing it
@@ -400,7 +405,7 @@ pub fn run(ctx: &Ctx) -> Coverage {
                 return;
             }
         };
-        let gen = Gen { root: schema };
+        let gen = Gen { root: schema, nested_cap, combo_cap };
         let insts = gen.cands(schema, 0, top_cap);
         if insts.is_empty() {
             ctx.count("schemas_without_instances", 1);
@@ -492,7 +497,7 @@ pub fn run(ctx: &Ctx) -> Coverage {
         ctx.machinery_error("vacuous run: too few instances or no segmentation fed");
     }
     Coverage::StateGraph {
-        rule: format!("{} schemas of the fully supported subset; for each, instances from a schema-guided finite universe (integers around every bound, x.5/x.25 decimals, 19 strings incl. escapes, 2- and 4-byte characters and control characters, arrays to length 3, objects over every subset of optional declared properties plus up to two additional keys, recursive $ref to depth 4; nested positions capped at 3 candidates, top level at {top_cap}) filtered by the reference validator, serialised by serde_json (keys in schema order); each is fed byte by byte, with one whitespace byte at every legal position, and under every segmentation into a schema-derived multi-byte vocabulary (all segmentations for texts <= 14 bytes, else greedy + two shifted); states = schemas, traces = fed token sequences", ss.len()),
+        rule: format!("{} schemas of the fully supported subset; for each, instances from a schema-guided finite universe (integers around every bound, x.5/x.25 decimals, 19 strings incl. escapes, 2- and 4-byte characters and control characters, arrays to length 3, objects over every subset of optional declared properties plus up to two additional keys, recursive $ref to depth 4; nested positions capped at {nested_cap} candidates, top level at {top_cap}) filtered by the reference validator, serialised by serde_json (keys in schema order); each is fed byte by byte, with one whitespace byte at every legal position, and under every segmentation into a schema-derived multi-byte vocabulary (all segmentations for texts <= 14 bytes, else greedy + two shifted); states = schemas, traces = fed token sequences", ss.len()),
     }
 }
 
